@@ -806,7 +806,7 @@ func main() {
 		},
 		Cases: func(tier string) int {
 			if tier == "thorough" {
-				return 40000
+				return 12000
 			}
 			return 1600
 		},
